@@ -40,8 +40,9 @@ OPEN_STATEMENTS = [
     'get_interaction_operator / get_quadratic_hamiltonian / get_diagonal_coulomb_hamiltonian: no theorem (they compose '
     'normal_ordered, property C03, with a scatter loop); soundness and the round trip '
     'get_fermion_operator(convert(A)) == normal_ordered(A) are covered by correspondence + Spec oracle only',
-    'get_majorana_operator / get_fermion_operator(MajoranaOperator) as algebra homomorphisms: proved for the generators '
-    '(all modes, all basis states); products and sums rely on C01 and are covered by the Spec oracle',
+    'get_fermion_operator(MajoranaOperator): proved for the generators (majorana_generator_sound); products and sums use '
+    'FermionOperator `*` and the pruning `+=` (exact regime) and are covered by the Spec oracle '
+    '(get_majorana_operator(FermionOperator) is proved at full strength: get_majorana_operator_sound)',
     'get_quad_operator / get_boson_operator: correspondence + Spec oracle only (hbar in {1/2, 2, 8})',
     'DOCIHamiltonian tensors vs qubit_operator: not modelled (no theorem, no correspondence)',
     'tensor_sub_hom holds only when the subtrahend keys are keys of the minuend (finding F08a: tensor_sub_spec states '
